@@ -205,6 +205,16 @@ func verifierOf(pub key.Key) tink.Verifier {
 type harness struct {
 	o   *hlib.Out
 	rng *hlib.Rng
+	// lite (rsasizes.go): one message per key configuration instead of hlib.N(2, 8..10)
+	lite bool
+}
+
+// nMsg: messages per key configuration.
+func (h *harness) nMsg(quick, thorough int) int {
+	if h.lite {
+		return 1
+	}
+	return hlib.N(quick, thorough)
 }
 
 func clone(b []byte) []byte { return append([]byte(nil), b...) }
@@ -989,7 +999,7 @@ func (h *harness) pssConfig(m *rsaMat, hi hashInfo, salt, vi int, crossSalts []i
 	signer, ver := m.psSigner(pub)
 	v.ver = ver
 	_, vOther := psView(m.bits, hi, salt, vi, id, m.otherN)
-	for i := 0; i < hlib.N(2, 8); i++ {
+	for i := 0; i < h.nMsg(2, 8); i++ {
 		msg := rng.Bytes(rng.MsgLen(300))
 		sig := h.signAndJudge(signer, v, vi, msg, 4, func(sig []byte) []tcase {
 			cs := h.rsaExtras(v, m, msg, sig)
@@ -1064,9 +1074,17 @@ func (h *harness) pssInternal(m *rsaMat, hi hashInfo, salt int) {
 }
 
 func (h *harness) rsaAll(mats []*rsaMat) {
-	o, rng := h.o, h.rng
 	salts := []int{0, 20, 32, 48, 64}
 	for _, m := range mats {
+		h.rsaOne(m, salts[1:])
+	}
+	h.rsaInternal(mats[0])
+}
+
+// rsaOne: every PKCS1 configuration (hash × variant) and every PSS configuration (hash × salt × variant) of one modulus.
+func (h *harness) rsaOne(m *rsaMat, salts []int) {
+	o, rng := h.o, h.rng
+	{
 		n := m.k.N.Bytes()
 		// PKCS1
 		for hx, hi := range hashes {
@@ -1078,7 +1096,7 @@ func (h *harness) rsaAll(mats []*rsaMat) {
 				v.ver = ver
 				_, vOther := p1View(m.bits, hi, vi, id, m.otherN)
 				_, vHash := p1View(m.bits, hashes[(hx+1)%3], vi, id, n)
-				for i := 0; i < hlib.N(2, 10); i++ {
+				for i := 0; i < h.nMsg(2, 10); i++ {
 					msg := rng.Bytes(rng.MsgLen(300))
 					sig := h.signAndJudge(signer, v, vi, msg, 5, func(sig []byte) []tcase {
 						cs := h.rsaExtras(v, m, msg, sig)
@@ -1115,15 +1133,18 @@ func (h *harness) rsaAll(mats []*rsaMat) {
 		}
 		// PSS (the keys with salt length 0 come last, see pssSaltZero)
 		for _, hi := range hashes {
-			for _, salt := range salts[1:] {
+			for _, salt := range salts {
 				for vi := 0; vi < 4; vi++ {
-					h.pssConfig(m, hi, salt, vi, salts[1:])
+					h.pssConfig(m, hi, salt, vi, salts)
 				}
 			}
 		}
 	}
-	// internal/signature raw signers (no prefix), and the hunt for a signature whose first byte is 00
-	m := mats[0]
+}
+
+// rsaInternal: internal/signature raw signers (no prefix), and the hunt for a signature whose first byte is 00
+func (h *harness) rsaInternal(m *rsaMat) {
+	o, rng := h.o, h.rng
 	o.Case()
 	for _, hi := range hashes {
 		s, err := isig.New_RSA_SSA_PKCS1_Signer(hi.name, m.k)
@@ -1312,5 +1333,7 @@ func main() {
 	h.ecdsaAll()
 	h.ed25519All()
 	h.rsaAll(mats)
+	odd := h.rsaSizes() // rsasizes.go: moduli whose bit length is not a multiple of 8
 	h.pssSaltZero(mats)
+	h.rsaSizesSaltZero(odd)
 }
